@@ -344,6 +344,35 @@ type subView struct {
 	monthExpiryTime uint64
 }
 
+// subAt reads the subscription version in force at block.
+func (s *scen) subAt(consumer string, block uint64) subView {
+	sub, _, ok := s.w.Keepers.Subscription.GetSubscriptionForBlock(s.w.Ctx, consumer, block)
+	if !ok {
+		return subView{}
+	}
+	return subView{found: true, block: sub.Block, credit: sub.Credit.Amount.BigInt(), monthExpiryTime: sub.MonthExpiryTime}
+}
+
+// newerTracked tells whether one of the tracked-CU entries already has a version for a later subscription block
+// (raw export of the tracked-CU fixation store).
+func (s *scen) newerTracked(consumer string, subBlock uint64, entries []entry) bool {
+	want := map[string]bool{}
+	for _, e := range entries {
+		want[subscriptiontypes.CuTrackerKey(consumer, e.provider, e.chain)] = true
+	}
+	for _, ge := range s.w.Keepers.Subscription.ExportCuTrackers(s.w.Ctx).Entries {
+		if !want[ge.Index] {
+			continue
+		}
+		for _, en := range ge.Entries {
+			if en.Block > subBlock {
+				return true
+			}
+		}
+	}
+	return false
+}
+
 // latestSub reads the newest version of the subscription (changes are appended for the next epoch).
 func (s *scen) latestSub(consumer string) subView {
 	w := s.w
@@ -404,7 +433,9 @@ type firing struct {
 	entries   []entry
 	sum       *big.Int // ΣCU (exact)
 	sumU64    uint64
-	subBefore subView
+	subBefore subView // newest version before the block
+	curBefore subView // version in force at the height at which the timer fires, before the block
+	newer     bool    // a tracked entry of this month already has a version for a later subscription block
 }
 
 // capTotal is the oracle's "credit capped at the per-CU limit": min(credit, 100·ΣCU), exact arithmetic.
@@ -443,7 +474,8 @@ type measured struct {
 	staked      map[string]bool     // provider metadata exists (before and after the block)
 	contribOn   map[string]bool     // chain has contributors
 	subAfter    map[string]subView
-	monthInSame map[string]bool // consumer: its month expiry was processed in the same block
+	curAfter    map[string]subView // the version that was in force at the firing height, re-read after the block
+	monthInSame map[string]bool    // consumer: its month expiry was processed in the same block
 }
 
 // evaluate compares the measured effect of the block with the expectation computed from totalFn.
@@ -460,18 +492,23 @@ func (s *scen) evaluate(fs []firing, m measured, totalFn func(credit, sum *big.I
 		credits.Add(credits, f.t.credit)
 		if f.sum.Sign() == 0 {
 			c := f.t.consumer
-			after := m.subAfter[c]
+			after := m.curAfter[c]
 			switch {
-			case m.monthInSame[c]:
-				// month expiry of the same subscription in the same block: either destination is accepted
-				outMax.Add(outMax, f.t.credit)
-			case !f.subBefore.found:
+			case !f.curBefore.found:
+				// no subscription at the firing height: the credit goes to the validators pool
 				outMin.Add(outMin, f.t.credit)
 				outMax.Add(outMax, f.t.credit)
 			default:
-				want := new(big.Int).Add(f.subBefore.credit, f.t.credit)
+				// weaker reading: "the subscription" = the version in force at the firing height (it may be a version
+				// that is superseded or deleted at the next epoch)
+				want := new(big.Int).Add(f.curBefore.credit, f.t.credit)
 				if !after.found || after.credit.Cmp(want) != 0 {
-					bad = append(bad, fmt.Sprintf("no tracked CU for %s (sub block %d): credit %s must return to the subscription (credit before %s), after the block found=%v credit=%v", s.consName(c), f.t.subBlock, f.t.credit, f.subBefore.credit, after.found, after.credit))
+					if m.monthInSame[c] {
+						// the month expiry of the same subscription was processed in the same block: accept either destination
+						outMax.Add(outMax, f.t.credit)
+					} else {
+						bad = append(bad, fmt.Sprintf("no tracked CU for %s (sub block %d): credit %s must return to the subscription (credit before %s), after the block found=%v credit=%v", s.consName(c), f.t.subBlock, f.t.credit, f.curBefore.credit, after.found, after.credit))
+					}
 				}
 			}
 			continue
@@ -577,13 +614,14 @@ func (s *scen) block(dt time.Duration) blockOut {
 			out.viol = append(out.viol, vio("timer-data-undecodable", "CU-tracker timer of "+s.consName(t.consumer)+" carries data that does not decode"))
 			continue
 		}
-		f := firing{t: t, sum: new(big.Int), subBefore: s.latestSub(t.consumer)}
+		f := firing{t: t, sum: new(big.Int), subBefore: s.latestSub(t.consumer), curBefore: s.subAt(t.consumer, curH)}
 		list, tot := w.Keepers.Subscription.GetSubTrackedCuInfo(w.Ctx, t.consumer, t.subBlock)
 		for _, i := range list {
 			f.entries = append(f.entries, entry{provider: i.Provider, chain: i.ChainID, cu: i.TrackedCu})
 			f.sum.Add(f.sum, new(big.Int).SetUint64(i.TrackedCu))
 		}
 		f.sumU64 = tot
+		f.newer = s.newerTracked(t.consumer, t.subBlock, f.entries)
 		fs = append(fs, f)
 	}
 	if len(fs) == 0 {
@@ -623,7 +661,7 @@ func (s *scen) block(dt time.Duration) blockOut {
 			out.viol = append(out.viol, vio("pending-payout-overwritten:block", fmt.Sprintf("pending CU-tracker timer %s (credit %v) vanished or was overwritten during a block before it was due", k, t.credit)))
 		}
 	}
-	m := measured{outflow: new(big.Int).Sub(subMod0, s.modBal(subscriptiontypes.ModuleName)), recDelta: map[string]*big.Int{}, staked: map[string]bool{}, contribOn: map[string]bool{}, subAfter: map[string]subView{}, monthInSame: map[string]bool{}}
+	m := measured{outflow: new(big.Int).Sub(subMod0, s.modBal(subscriptiontypes.ModuleName)), recDelta: map[string]*big.Int{}, staked: map[string]bool{}, contribOn: map[string]bool{}, subAfter: map[string]subView{}, curAfter: map[string]subView{}, monthInSame: map[string]bool{}}
 	rec1 := s.records()
 	for p, v := range rec1 {
 		d := new(big.Int).Set(v)
@@ -652,6 +690,7 @@ func (s *scen) block(dt time.Duration) blockOut {
 		c := f.t.consumer
 		a := s.latestSub(c)
 		m.subAfter[c] = a
+		m.curAfter[c] = s.subAt(c, curH)
 		if f.subBefore.found && (!a.found || a.block != f.subBefore.block || a.monthExpiryTime != f.subBefore.monthExpiryTime) {
 			m.monthInSame[c] = true
 		}
@@ -685,12 +724,13 @@ func (s *scen) block(dt time.Duration) blockOut {
 	for _, f := range fs {
 		if f.sum.Sign() == 0 {
 			switch {
-			case m.monthInSame[f.t.consumer]:
-				out.tags["zeroCU:month-boundary-same-block"] = true
-			case f.subBefore.found:
-				out.tags["zeroCU:credit-returned"] = true
-			default:
+			case !f.curBefore.found:
 				out.tags["zeroCU:to-validators"] = true
+			case !f.subBefore.found || f.subBefore.block != f.curBefore.block:
+				// returned to a version that is deleted / superseded at the next epoch (the credit is stranded)
+				out.tags["zeroCU:credit-returned-to-outgoing-version"] = true
+			default:
+				out.tags["zeroCU:credit-returned"] = true
 			}
 			continue
 		}
@@ -726,13 +766,7 @@ func (s *scen) block(dt time.Duration) blockOut {
 		if f.sum.Sign() == 0 {
 			continue
 		}
-		newer := false
-		// a newer month has its own tracked-CU version iff the list at the newest subscription block is non-empty
-		if a := m.subAfter[f.t.consumer]; a.found && a.block != f.t.subBlock {
-			if l, _ := w.Keepers.Subscription.GetSubTrackedCuInfo(w.Ctx, f.t.consumer, a.block); len(l) > 0 {
-				newer = true
-			}
-		}
+		newer := f.newer
 		restore := w.Fork()
 		r0 := s.records()
 		func() {
@@ -919,9 +953,9 @@ func init() {
 			depth    int
 			deadline time.Duration
 		}
-		plans := []plan{{"zero", 4, 40 * time.Second}, {"default", 4, 25 * time.Second}, {"huge", 4, 20 * time.Second}}
+		plans := []plan{{"zero", 4, 30 * time.Second}, {"default", 4, 25 * time.Second}, {"huge", 4, 15 * time.Second}}
 		if ev.Tier() == "thorough" {
-			plans = []plan{{"zero", 6, 8 * time.Minute}, {"default", 6, 5 * time.Minute}, {"huge", 6, 3 * time.Minute}}
+			plans = []plan{{"zero", 5, 7 * time.Minute}, {"default", 5, 5 * time.Minute}, {"huge", 6, 3 * time.Minute}}
 		}
 		filtered := ev.NewRun("C11", "model_checking")
 		exh := true
